@@ -123,3 +123,46 @@ Definition tstep (p : nocap_policy) (t : tthread) (sh : tshared) : tthread * tsh
   end.
 Definition reqresp_run (p : nocap_policy) (n m : nat) (sched : list nat) : tshared * list tthread :=
   run _ _ (tstep p) ({| t_stream_closed := false; t_delivered := 0 |}, [TReq n; TResp m]) sched.
+
+(* -------------------------------------------------------------------------------------------------
+   Histories of Close() calls and of the cancellation of the PARENT context (the context NewBridge was given: the
+   SessionManager's).  The bridge context is a child: it is cancelled by Bridge.Close (ManagerBase.Close) AND by the parent.
+   dispose runs no clean-up on cancellation, so a parent cancellation alone closes nothing: somebody still has to call Close,
+   and that Close must run its close sequence.
+     guard CloseAlways      = the code: every Close runs the (nil-checked, idempotent) close sequence
+           SkipWhenCtxDone  = "if b.Ctx().Err() != nil { only ManagerBase.Close(); return }" (seeded C02-13) *)
+Inductive cevent := EvClose | EvParentCancel.
+Inductive close_guard := CloseAlways | SkipWhenCtxDone.
+Record chstate := { ch_ctx_done : bool; ch_conns_closed : bool; ch_close_calls : nat }.
+Definition ch_step (g : close_guard) (s : chstate) (e : cevent) : chstate :=
+  match e with
+  | EvParentCancel => {| ch_ctx_done := true; ch_conns_closed := ch_conns_closed s; ch_close_calls := ch_close_calls s |}
+  | EvClose =>
+      match g, ch_ctx_done s with
+      | SkipWhenCtxDone, true => {| ch_ctx_done := true; ch_conns_closed := ch_conns_closed s; ch_close_calls := S (ch_close_calls s) |}
+      | _, _ => {| ch_ctx_done := true; ch_conns_closed := true; ch_close_calls := S (ch_close_calls s) |}
+      end
+  end.
+Definition ch_run (g : close_guard) (h : list cevent) : chstate :=
+  fold_left (ch_step g) h {| ch_ctx_done := false; ch_conns_closed := false; ch_close_calls := 0 |}.
+
+(* -------------------------------------------------------------------------------------------------
+   Elapsed time and the remaining direction of the relay: a clock thread ticks; the remaining direction delivers m chunks.
+   drain None = the code (iocopy.Bidirectional never sets a deadline on a connection a direction still reads);
+   drain (Some d) = a read deadline d ticks after the first direction ended (seeded C02-15): a Read after it fails. *)
+Inductive dthread := DResp (m : nat) | DRespDone (truncated : bool) | DClock.
+Record dshared := { d_now : nat; d_got : nat }.
+Definition dstep (drain : option nat) (t : dthread) (sh : dshared) : dthread * dshared :=
+  match t with
+  | DClock => (DClock, {| d_now := S (d_now sh); d_got := d_got sh |})
+  | DResp (S m) =>
+      match drain with
+      | Some d => if Nat.ltb d (d_now sh) then (DRespDone true, sh) else (DResp m, {| d_now := d_now sh; d_got := S (d_got sh) |})
+      | None => (DResp m, {| d_now := d_now sh; d_got := S (d_got sh) |})
+      end
+  | DResp O => (DRespDone false, sh)
+  | DRespDone _ => (t, sh)
+  end.
+(* thread 0 = the remaining direction, thread 1 = the clock *)
+Definition drain_run (drain : option nat) (m : nat) (sched : list nat) : dshared * list dthread :=
+  run _ _ (dstep drain) ({| d_now := 0; d_got := 0 |}, [DResp m; DClock]) sched.
